@@ -32,6 +32,7 @@ EXPLANATION = (
 EXPLANATION += (' R-C11-6: no write reaches the Woehler curve data handed to the Miner classes. R-C11-7: the damage of a collective does not depend on the order of its members (order-class analysis).')
 EXPLANATION += (" R-C11-8: the Gassner cycles (cycles at the largest amplitude times the lifetime multiple of each Miner rule) combine quantities of one failure-probability level only: cycles()/load() evaluate the curve transformed to 50 %, so a lifetime multiple must not read the object's own SD / ND (interprocedural level typing over the Miner classes).")
 EXPLANATION += (' R-C11-9: the reference cycle number of the Gassner line is evaluated on the Miner-elementary modification of the curve (slope k_1 at every amplitude), because the lifetime multiples are derived with the k_1 line as reference.')
+EXPLANATION += (" R-C11-8 also requires Fatigue.damage - the damage the Gassner cycles are measured against - to evaluate the curve at the same 50 % level (an explicit self.failure_probability argument is the native level). R-C11-10 (memo rule): no caching decorator or unreset memo attribute in the Miner / Fatigue / solidity modules; a cache keyed by the identity of a collective returns the first value after its cycle counts were edited in place.")
 ASSUMPTIONS = ["builtin min/max on floats; np.dot is the plain sum of products"]
 
 
@@ -45,6 +46,19 @@ def run(ctx):
     ctx.attempt(_r7)
     ctx.attempt(_r8)
     ctx.attempt(_r9)
+    ctx.attempt(_r10)
+
+
+def _r10(ctx):
+    """Nothing the Miner / Fatigue calculation derives from a collective or curve is cached across calls: collectives and
+    curve frames are mutable pandas objects (cycle counts are edited in place, e.g. emptying a class)."""
+    from .. import memo
+    prog = ctx.prog
+    ctx.rule("R-C11-10", floor=1, what="no cache in the Miner / Fatigue / solidity modules outlives a change of collective or curve")
+    classes = [prog.cls(MINER + ":MinerBase"), prog.cls(MINER + ":MinerElementary"), prog.cls(MINER + ":MinerHaibach"),
+               prog.cls("pylife.strength.fatigue:Fatigue")]
+    memo.run_rule(ctx, classes=classes, modules=["pylife.strength.miner", "pylife.strength.fatigue", "pylife.strength.solidity"],
+                  what="load collectives / histograms (pandas accessor objects)")
 
 
 def _r9(ctx):
@@ -86,8 +100,13 @@ def _prob_level(prog, ci, fi, e, depth=0):
             derived = isinstance(f.value, ast.Call) and isinstance(f.value.func, ast.Attribute) and is_self_attr(f.value.func) and \
                 f.value.func.attr.startswith("miner_")
             if (is_self_attr(f) or derived) and f.attr in ("cycles", "load", "basquin_cycles", "basquin_load"):
-                explicit = len(n.args) > 1 or any(k.arg == "failure_probability" for k in n.keywords)
-                out.add("OTHER" if explicit else "P50")
+                pa = n.args[1] if len(n.args) > 1 else next((k.value for k in n.keywords if k.arg == "failure_probability"), None)
+                if pa is None or const_value(pa) == 0.5:
+                    out.add("P50")
+                elif is_self_attr(pa, "failure_probability"):
+                    out.add("NATIVE")
+                else:
+                    out.add("OTHER")
                 for a in n.args:
                     visit(a)
                 return
@@ -117,7 +136,7 @@ def _r8(ctx):
     mixes two levels whenever the curve's native failure probability is not 50 % - the Gassner cycles then do not give a
     damage sum of one."""
     prog = ctx.prog
-    ctx.rule("R-C11-8", floor=2, what="Gassner cycles combine quantities of one failure-probability level only")
+    ctx.rule("R-C11-8", floor=3, what="Gassner cycles combine quantities of one failure-probability level only")
     base = prog.cls(MINER + ":MinerBase")
     g = prog.lookup_method(base, "gassner_cycles")
     ret = [s_ for s_ in walk_function(g.node) if isinstance(s_, ast.Return) and s_.value is not None]
@@ -142,6 +161,24 @@ def _r8(ctx):
             ctx.holds(lm, lm.node, "%s: Gassner cycles use level(s) %s only" % (ci.name, sorted(lv) or ["level-free"]))
     if n == 0:
         raise AnalysisError("no Miner rule with a lifetime multiple found")
+    # the damage the Gassner cycles are measured against is evaluated on the same (50 %) level
+    fat = prog.cls("pylife.strength.fatigue:Fatigue")
+    dmg = prog.lookup_method(fat, "damage")
+    lv, site = set(), None
+    for st in walk_function(dmg.node):
+        if isinstance(st, (ast.Assign, ast.Return)) and st.value is not None:
+            l2 = _prob_level(prog, fat, dmg, st.value)
+            if l2 - {"P50"} and site is None:
+                site = st
+            lv |= l2
+    if "P50" not in lv and not lv - {"P50"}:
+        raise AnalysisError("Fatigue.damage: curve evaluation not found")
+    if lv == {"P50"}:
+        ctx.holds(dmg, dmg.node, "Fatigue.damage evaluates the curve at 50 %, the level of the Gassner cycles")
+    else:
+        ctx.violated(dmg, site or dmg.node, "Fatigue.damage evaluates the curve at level(s) %s while the Gassner cycles and lifetime "
+                     "multiples are at 50 %%: for a curve with scatter whose native failure probability is not 50 %% the damage sum at "
+                     "the Gassner cycles is not one" % sorted(lv), text="damage level")
 
 
 def _r6(ctx):
